@@ -176,7 +176,7 @@ def run(tier, seed):
             rep.violation("retention:%s" % name, {"tool": name, "why": "retention grows with the stream: %r" % (d,)})
     rep.notes["max_live_items_by_tool_and_stream"] = maxima
     # tee: every pattern of child progress and early close
-    npat = 150 * common.scale(rep) if tier == "quick" else 3000
+    npat = 150 * common.scale(rep) if tier == "quick" else 20000
     for k in range(npat):
         nchild = rng.choice([2, 3, 3, 4])
         N = rng.choice([50, 120])
